@@ -10,21 +10,33 @@ LEVEL_TEXT = ("Theorems (Lean 4) about the statement-by-statement model of the e
               "name-keyed abstract structure alone: `_rel_update()` (each component's ordered inputs and its children, by name), "
               "`_set_phase_lkup()` (each component's phase configuration) and the component list do not depend on node indices, "
               "dict insertion order, freed indices or the `pnames` bookkeeping (`rel_factors`, `phase_lkup_factors`, "
-              "`names_factor`); rejected calls leave no trace (`noops_invisible`). NOT proved: that the solver and the table "
-              "assembly commute with a renaming of node indices - that part of the property rests on the differential test: after "
+              "`names_factor`); rejected calls leave no trace (`noops_invisible`). The numeric half (Props/C16Renumber): for two solver views that differ by a renumbering of the nodes "
+              "(gaps from freed indices, other sibling order, other topological order) the solver performs the same number of sweeps, "
+              "ends in the same outcome (ok / RuntimeError / a law exception) and returns the same voltages, currents and flags up to the "
+              "renumbering (`solvePhase_renumber`, `..._error`, `..._isOk_iff`), and the whole solve() table is the same up to row order: "
+              "component and subsystem rows are permutations, total and average rows are equal (`solve_renumber`). NOT proved: the link "
+              "from an edit history's `Sys.toSSys` to the renumbering relation `Iso` (stated for the relationships by `rel_factors`), and "
+              "rail_rep / params / limits / phases / tree / save / diagrams as functions of the abstract structure - these rest on the differential test: after "
               "random successful edit histories every report (solve, rail_rep, params, limits, phases, tree, save, make_diag) of "
               "the edited system is compared with the same report of systems built from scratch from the final structure in a "
               "canonical and in shuffled construction orders.")
-LEVEL_NOTE = ("the proof covers the bookkeeping (structure handed to the analyses factors through the abstraction); history- and "
-              "order-independence of the numeric reports themselves is established by testing, not proof")
+LEVEL_NOTE = ("proved: bookkeeping factors through the abstraction; solver and solve() table are invariant under node renumbering, sibling "
+              "order and topological order. Which law exception escapes when two components fail in the same sweep does depend on the "
+              "processing order (the exception class does not). The composition of the two halves and the other reports are tested, not proved.")
 MODULE = "SysLoss.Props.C16"
+MODULES = ["SysLoss.Props.C16", "SysLoss.Props.C16Renumber"]
 THEOREMS = [
     "SysLoss.C16.names_factor", "SysLoss.C16.rel_factors", "SysLoss.C16.phase_lkup_factors",
     "SysLoss.C16.noops_invisible", "SysLoss.C16.factors_nonvacuous", "SysLoss.C16.toSSys_node",
     # Props/C16Sweep: the sweeps are pointwise maps, hence independent of the topological order and of sibling order
     "SysLoss.C16.fwdProp_pointwise", "SysLoss.C16.fwdProp_order_free", "SysLoss.C16.backProp_pointwise",
     "SysLoss.C16.backProp_order_free", "SysLoss.C16.childCurr_sibling_order", "SysLoss.C16.childCurr_perm",
-]
+] + ["SysLoss.C16R." + t for t in (
+    # Props/C16Renumber: the solver and the whole solve() table commute with a renumbering of the nodes
+    "solvePhase_renumber", "solvePhase_renumber_error", "solvePhase_runtime_iff", "solvePhase_isOk_iff",
+    "fwdAt_comm", "backAt_comm", "childCurr_comm", "fwdProp_rel", "backProp_rel", "converged_rel", "init_rel", "loop_rel",
+    "LawErr.not_runtime", "compRow_comm", "rootOf_hidx_comm", "compRows_spec", "compRows_renumber", "aggregates_perm",
+    "phaseTable_renumber", "nsrc_structural", "averageRow_congr", "solve_renumber", "solve_renumber_error")]
 RULE = ("random edit histories of 5-50 calls (all six methods, ~20% rejected and dropped, components with limits and interpolation "
         "tables, phases, groups, rails, a PMux in ~50%) with forced coverage of: rename through change_comp, deletion with and "
         "without children, re-adding a deleted name, edits above / below / of the PMux and of its inputs, source deletion freeing "
